@@ -261,3 +261,92 @@ func init() {
 }
 
 const quickStride = 8
+
+// ---- SAN-sibling family ----
+//
+// For every seed certificate with dNSName SAN entries, append siblings of each
+// entry whose second-level label is replaced (www.example.com ->
+// www.verifa.com, www.verifb.com, ...). Several similar offending entries at
+// once is what exposes details built from map iteration or "first entry wins"
+// logic (e.g. several .onion subjects lacking a descriptor).
+
+var sanSeeds []int
+
+func buildSanSeeds() {
+	if sanSeeds != nil {
+		return
+	}
+	for i, o := range W.Objs {
+		if o.Cert != nil && len(o.Cert.DNSNames) > 0 {
+			sanSeeds = append(sanSeeds, i)
+		}
+	}
+}
+
+func sibling(name, repl string) string {
+	l := splitLabels(name)
+	if len(l) < 2 {
+		return repl + "." + name
+	}
+	l[len(l)-2] = repl
+	out := l[0]
+	for _, x := range l[1:] {
+		out += "." + x
+	}
+	return out
+}
+
+func splitLabels(s string) []string {
+	var out []string
+	cur := ""
+	for i := 0; i < len(s); i++ {
+		if s[i] == '.' {
+			out = append(out, cur)
+			cur = ""
+		} else {
+			cur += string(s[i])
+		}
+	}
+	return append(out, cur)
+}
+
+func init() {
+	dirFams = append(dirFams, dirFam{
+		name: "san-siblings",
+		n: func(c *mon.Ctx) int {
+			buildSanSeeds()
+			return len(sanSeeds) * 2
+		},
+		gen: func(c *mon.Ctx, k int) (*mon.Obj, string) {
+			buildSanSeeds()
+			idx := sanSeeds[k/2]
+			seed := W.Objs[idx]
+			dc, err := der.ParseCert(seed.DER)
+			if err != nil {
+				return nil, "n/a"
+			}
+			l := sanList(dc)
+			if l == nil {
+				return nil, "n/a"
+			}
+			repls := []string{"verifa", "verifb", "verifc"}
+			if k%2 == 1 {
+				repls = []string{"verif-z", "verif-y", "verif-x", "verif-w", "verif-v"}
+			}
+			var add []*der.Node
+			for _, ch := range l.Children {
+				if ch.IsCtx(2) && !ch.Constructed {
+					for _, r := range repls {
+						add = append(add, der.CtxPrim(2, []byte(sibling(string(ch.Content), r))))
+					}
+				}
+			}
+			if len(add) == 0 {
+				return nil, "n/a"
+			}
+			l.Children = append(l.Children, add...)
+			o, _ := mon.ParseObj(seed.Kind, seed.Name+"+siblings", dc.Encode())
+			return o, fmt.Sprintf("%d sibling names", len(add))
+		},
+	})
+}
